@@ -109,6 +109,10 @@ def generate(rng, index, tier):
                 nfr = rng.randint(1, 5)
                 ops.append(worlds.op_sample(rng, flags=rng.pick([9, 9, 1, 8, 0xa, 0x108, 0x208, 0x1008, 0x3fff, 0x2, 0x100]), thd=(rng.pick([pids[target], 61000 + rng.randrange(5), (1 << 64) - 1, 0xffffffff, 0]), target),
                                             uhdr=(1, nfr), udata=[[rng.randrange(1, 1 << 40) for _ in range(4)] for _ in range(2)]))
+                if rng.chance(0.15):
+                    for sub_ in ops[-1]['in']:
+                        if sub_.get('name') == 'PERF_THD_Data':
+                            sub_['q'] = 1        # the thread-info record carries a START qualifier: the sample is its only decoding
             elif r < 0.94:
                 # a thread-terminate record naming a (declared or undeclared) simulated thread: not a map-updating record
                 ops.append({'k': 'one', 'name': 'TRACE_DATA_THREAD_TERMINATE', 'q': 0, 'a': [rng.pick(tids), 0, 0, 0]})
@@ -167,15 +171,21 @@ def _tables_states(tmap, stream, table, reapply=False):
     open_samples = {}
     for r in stream:
         name = table.get(r['id'])
-        if reapply and name == 'PERF_Event':
+        if name == 'PERF_Event':
             if r['q'] == 1:
-                open_samples[r['t']] = [r['a'][0], None]
+                open_samples[r['t']] = [r['a'][0], None, None]
             elif r['q'] == 2 and r['t'] in open_samples:
-                flags, first = open_samples.pop(r['t'])
-                if flags & 1 and first is not None:
+                flags, first, first_q = open_samples.pop(r['t'])
+                # the sample applies the first thread-info record of its window when it closes.  For a record that was
+                # applied on its own already (NONE / ALL qualified) the statement leaves open whether the sample counts again
+                # (reapply); a START-qualified one is never reported on its own, so the sample is its only application
+                if flags & 1 and first is not None and (reapply or first_q == 1):
                     tp[first[1]] = first[0]
-        if reapply and name == 'PERF_THD_Data' and r['t'] in open_samples and open_samples[r['t']][1] is None:
+                    if first_q == 1:
+                        kinds.add('sampler')
+        if name == 'PERF_THD_Data' and r['t'] in open_samples and open_samples[r['t']][1] is None:
             open_samples[r['t']][1] = (r['a'][0], r['a'][1])
+            open_samples[r['t']][2] = r['q']
         if r['q'] in (0, 3):
             if name == 'TRACE_DATA_NEWTHREAD':
                 tp[r['a'][0]] = r['a'][1]
